@@ -17,7 +17,7 @@ EXPLANATION = ("Closed obligations (eval, exhaustive): every element and isotope
 
 
 def units(tier):
-    return ((([D.U_DENSITY_EL, D.U_DENSITY_ISO] + D.U_NUMBER_DENSITY + D.U_INTERATOMIC + L.U_MASS_ABUNDANCE_LOOP) + W.U_MASS_GETTERS) + LD.U_DENSITY_ROW) + LD.U_MASS_TAIL
+    return ((([D.U_DENSITY_EL, D.U_DENSITY_ISO] + D.U_NUMBER_DENSITY + D.U_INTERATOMIC + L.U_MASS_ABUNDANCE_LOOP) + W.U_MASS_GETTERS) + LD.U_DENSITY_ROW) + LD.U_MASS_TAIL + [LD.U_MASS_ISOTOPE_ROW] + LD.U_MASS_ELEMENT_ROW
 
 
 def runner_tasks(tier):
